@@ -169,6 +169,9 @@ func (o *CandidateNode) MarshalJSON() ([]byte, error) {
 		log.Debugf("MarshalJSON MappingNode")
 		buf.WriteByte('{')
 		for i := 0; i < len(o.Content); i += 2 {
+			if err := scalarKeyOnly(o.Content[i], "json"); err != nil {
+				return nil, err
+			}
 			if err := enc.Encode(o.Content[i].Value); err != nil {
 				return nil, err
 			}
